@@ -66,9 +66,26 @@ def build(b):
     raise ValueError(b["kind"])
 
 
+def mk_start(v, form):
+    import numpy as np
+    return {"int": int, "np64": np.int64, "np32": np.int32, "u8": np.uint8}[form](v)
+
+
 def mk_targets(spec):
     import numpy as np
     form, v = spec["form"], spec["v"]
+    if form == "np32list":
+        return [np.int32(x) for x in v]
+    if form == "u8list":
+        return [np.uint8(x) for x in v]
+    if form == "nparray":
+        return np.array([int(x) for x in v], dtype=np.int64)
+    if form == "gen":               # one-shot iterables
+        return (int(x) for x in v)
+    if form == "iter":
+        return iter([int(x) for x in v])
+    if form == "keys":
+        return dict.fromkeys(int(x) for x in v).keys()
     if form == "int":
         return int(v)
     if form == "npint":             # a single vertex id as mouette hands them out
@@ -186,15 +203,16 @@ def run_case(case):
             # the VALUE of each weight is wnum/den; its machine representation is whatever a caller may legally use
             import numpy as np
             wrepr = case.get("wrepr", "pyfloat")
-            conv = {"pyfloat": lambda a, b: a / b, "pyint": lambda a, b: int(a // b), "bool": lambda a, b: bool(a // b),
-                    "f32": lambda a, b: np.float32(a / b), "f64": lambda a, b: np.float64(a / b),
+            sc = 2.0 ** case.get("wexp", 0)      # shortest paths do not depend on the unit of the weights
+            conv = {"pyfloat": lambda a, b: a / b * sc, "pyint": lambda a, b: int(a // b), "bool": lambda a, b: bool(a // b),
+                    "f32": lambda a, b: np.float32(a / b), "f64": lambda a, b: np.float64(a / b * sc),
                     "i8": lambda a, b: np.int8(a // b), "i16": lambda a, b: np.int16(a // b),
                     "i32": lambda a, b: np.int32(a // b), "i64": lambda a, b: np.int64(a // b),
                     "u8": lambda a, b: np.uint8(a // b), "u16": lambda a, b: np.uint16(a // b),
                     "u32": lambda a, b: np.uint32(a // b), "u64": lambda a, b: np.uint64(a // b)}[wrepr]
             weights = dict((e, conv(wnum[e], den)) for e in range(len(edges)))
             for e in range(len(edges)):
-                if float(weights[e]) * den != wnum[e]:
+                if float(weights[e]) * den != wnum[e] * (sc if wrepr in ("pyfloat", "f64") else 1.0):
                     raise ValueError("weight %r/%r is not representable as %s" % (wnum[e], den, wrepr))
         else:
             weights = mesh.edges.create_attribute("c09_w", float)
@@ -213,45 +231,107 @@ def run_case(case):
         from vf.props.C09 import gen_queries
         queries = gen_queries(random.Random(case["qseed"]), {"n": n, "edges": edges, "border": border}, case["k"])
     queries = queries or []
+    extras = []
+
+    def attr_names():
+        out = {}
+        for nm in ("vertices", "edges", "faces", "cells", "face_corners", "cell_corners"):
+            cont = getattr(mesh, nm, None)
+            if cont is not None and hasattr(cont, "attributes"):
+                out[nm] = sorted(str(a) for a in cont.attributes)
+        return out
+
+    def weights_snapshot():
+        if isinstance(weights, dict):
+            return sorted((int(k), float(v)) for k, v in weights.items())
+        return None
+
+    def call(q, tg):
+        """one call in the requested call form; returns the raw result"""
+        exp = bool(q.get("export"))
+        form = q.get("call", "pos")
+        st = mk_start(q["start"], q.get("startform", "int"))
+        fn = {"sp": P.shortest_path, "set": P.shortest_path_to_vertex_set, "border": P.shortest_path_to_border}[q["f"]]
+        if q["f"] == "border":
+            if form == "kw":
+                return fn(mesh=mesh, start=st, weights=weights, export_path_mesh=exp)
+            if form == "omit":
+                kw = {}
+                if mode != "length":
+                    kw["weights"] = weights
+                if exp:
+                    kw["export_path_mesh"] = exp
+                return fn(mesh, st, **kw)
+            return fn(mesh, st, weights, exp)
+        if form == "kw":
+            return fn(mesh=mesh, start=st, targets=tg, weights=weights, export_path_mesh=exp)
+        if form == "omit":       # optional arguments left out whenever their default is what is meant
+            kw = {}
+            if mode != "length":
+                kw["weights"] = weights
+            if exp:
+                kw["export_path_mesh"] = exp
+            return fn(mesh, st, tg, **kw)
+        return fn(mesh, st, tg, weights, exp)
+
+    def canon(q, r):
+        exp = bool(q.get("export"))
+        if q["f"] == "sp":
+            pm = None
+            if exp:
+                r, pm = r
+            if not isinstance(r, dict):
+                return ["other", "not a dict: %r" % (r,)], None
+            o = ["paths", [[to_int(t), [to_int(x) for x in p]] for t, p in r.items()]]
+            if pm is not None:
+                o.append(canon_polyline(pm))
+            return o, [r] + list(r.values())
+        if q["f"] == "set":
+            if not (isinstance(r, tuple) and len(r) == (3 if exp else 2)):
+                return ["other", "not a %d-tuple: %r" % (3 if exp else 2, r)], None
+            o = ["set", to_int(r[0]), [to_int(x) for x in r[1]]]
+            if exp:
+                o.append(canon_polyline(r[2]))
+            return o, [r[1]]
+        pm = None
+        if exp:
+            if not (isinstance(r, tuple) and len(r) == 2):
+                return ["other", "not a pair: %r" % (r,)], None
+            r, pm = r
+        o = ["border", [to_int(x) for x in r]]
+        if pm is not None:
+            o.append(canon_polyline(pm))
+        return o, [r]
+
     for q in queries:
+        ex_info = {}
         try:
             signal.alarm(QUERY_TIMEOUT)       # a non-terminating back-tracking loop is an observation, not a hang
-            exp = bool(q.get("export"))
-            if q["f"] == "sp":
-                r = P.shortest_path(mesh, q["start"], mk_targets(q["targets"]), weights, exp)
-                pm = None
-                if exp:
-                    r, pm = r
-                if not isinstance(r, dict):
-                    obs.append(["other", "not a dict: %r" % (r,)])
-                    continue
-                o = ["paths", [[to_int(t), [to_int(x) for x in p]] for t, p in r.items()]]
-                if pm is not None:
-                    o.append(canon_polyline(pm))
-                obs.append(o)
-            elif q["f"] == "set":
-                r = P.shortest_path_to_vertex_set(mesh, q["start"], mk_targets(q["targets"]), weights, exp)
-                if not (isinstance(r, tuple) and len(r) == (3 if exp else 2)):
-                    obs.append(["other", "not a %d-tuple: %r" % (3 if exp else 2, r)])
-                    continue
-                o = ["set", to_int(r[0]), [to_int(x) for x in r[1]]]
-                if exp:
-                    o.append(canon_polyline(r[2]))
-                obs.append(o)
-            elif q["f"] == "border":
-                r = P.shortest_path_to_border(mesh, q["start"], weights, exp)
-                pm = None
-                if exp:
-                    if not (isinstance(r, tuple) and len(r) == 2):
-                        obs.append(["other", "not a pair: %r" % (r,)])
-                        continue
-                    r, pm = r
-                o = ["border", [to_int(x) for x in r]]
-                if pm is not None:
-                    o.append(canon_polyline(pm))
-                obs.append(o)
-            else:
-                raise ValueError(q["f"])
+            names0 = attr_names()
+            w0 = weights_snapshot()
+            tg = mk_targets(q["targets"]) if "targets" in q else None
+            keep = None
+            if isinstance(tg, (list, set)):
+                keep = (tg, type(tg)(tg))       # the caller's collection must come back unchanged
+            r = call(q, tg)
+            o, mutable = canon(q, r)
+            obs.append(o)
+            ex_info["attrs_changed"] = names0 != attr_names()
+            ex_info["attrs"] = [names0, attr_names()] if ex_info["attrs_changed"] else None
+            ex_info["weights_mutated"] = w0 != weights_snapshot()
+            ex_info["targets_mutated"] = bool(keep is not None and keep[0] != keep[1])
+            if q.get("repeat") and mutable is not None:
+                # the same call again after the first answer was vandalised in place: answers are fresh objects
+                for obj in mutable:
+                    if isinstance(obj, list):
+                        obj.append(-7)
+                        obj.reverse()
+                    elif isinstance(obj, dict):
+                        obj.clear()
+                signal.alarm(QUERY_TIMEOUT)
+                r2 = call(q, mk_targets(q["targets"]) if "targets" in q else None)
+                o2, _ = canon(q, r2)
+                ex_info["repeat"] = None if o2 == o else o2
         except QueryTimeout:
             obs.append(["timeout", "no answer within %d s" % QUERY_TIMEOUT])
         except MemoryError:
@@ -260,8 +340,9 @@ def run_case(case):
             obs.append(canon_exc(ex))
         finally:
             signal.alarm(0)
+            extras.append(ex_info)
             amb_after.append(ambient_state())      # one entry per query, whatever way the query ended
-    return {"pre_errors": pre_errors, "ambient_after": amb_after, "type": type(mesh).__name__, "n": n, "edges": edges, "adj": adj, "border": border, "coords": coords,
+    return {"pre_errors": pre_errors, "ambient_after": amb_after, "extras": extras, "type": type(mesh).__name__, "n": n, "edges": edges, "adj": adj, "border": border, "coords": coords,
             "wnum": wnum, "obs": obs, "queries": queries}
 
 
